@@ -309,3 +309,18 @@ CHECKS["C03"] = {
         {"name": "httpserver", "pkg": "pkg/object/httpserver", "test": "TestVerifC03", "inject": [LOOPBACK]},
     ],
 }
+
+CHECKS["C07"] = {
+    "level": "exploration",
+    "technique": "exhaustive enumeration (choice-tree DFS) of the product limits x sizes x encodings in both directions over real loopback sockets with a raw-socket client",
+    "level_text": "requests: clientMaxBodySize at path and server level in {unset, 1000, -1} x body size {999, 1000, 1001, 10000} x {Content-Length, chunked, lying Content-Length}; responses: serverMaxBodySize at pool and "
+                  "proxy level, same sizes and encodings; thorough adds the 4 MiB default (4MiB-1, 4MiB, 4MiB+1); oracle: over the effective limit => 413 and the backend never called / 5xx and none of the body; "
+                  "at or below => 200 with identical bytes; fewer bytes than declared => an error status (or, for streamed responses, a visibly broken framing), never a clean success",
+    "level_note": "free-running real net/http stack; no timing in the oracle",
+    "rule": "choice tree: inner limit, outer limit, size, encoding; distinct_nontrivial = distinct (direction, status) outcomes",
+    "bounds": {"quick": "limit 1000: 2 x 108 cases", "thorough": "+ default 4 MiB limit: 2 x 9 cases"},
+    "assumptions": [],
+    "units": [
+        {"name": "httpserver", "pkg": "pkg/object/httpserver", "test": "TestVerifC07", "inject": [LOOPBACK], "workers": 8},
+    ],
+}
